@@ -1,0 +1,29 @@
+//go:build verif
+// +build verif
+
+package solo
+
+import (
+	"github.com/ontio/ontology-eventbus/actor"
+	"github.com/polynetwork/poly/account"
+	actorTypes "github.com/polynetwork/poly/consensus/actor"
+	"github.com/polynetwork/poly/core/types"
+	"github.com/polynetwork/poly/validator/increment"
+)
+
+// VerifNewService builds a SoloService that is not registered as an actor: only what makeBlock needs
+// (the bookkeeper account, the transaction-pool actor to ask, a fresh incremental validator).
+func VerifNewService(bkAccount *account.Account, txpool *actor.PID) *SoloService {
+	return &SoloService{
+		Account:       bkAccount,
+		poolActor:     &actorTypes.TxPoolActor{Pool: txpool},
+		incrValidator: increment.NewIncrementValidator(20),
+	}
+}
+
+// VerifMakeBlock exposes the block producer.
+func (self *SoloService) VerifMakeBlock() (*types.Block, error) { return self.makeBlock() }
+
+// VerifAddPackedBlock tells the incremental validator that the block has been packed (what the service does
+// on the save-block-complete event).
+func (self *SoloService) VerifAddPackedBlock(block *types.Block) { self.incrValidator.AddBlock(block) }
